@@ -662,6 +662,15 @@ func ruleC07(c *Ctx, r *Report) {
 			case *ssa.Slice:
 				v = x.X
 				continue
+			case *ssa.Lookup:
+				// an inner map/slice/pointer stored as a map element belongs to the owner of the outer map
+				v = x.X
+				continue
+			case *ssa.Extract:
+				if lk, ok := x.Tuple.(*ssa.Lookup); ok && x.Index == 0 {
+					v = lk.X
+					continue
+				}
 			case *ssa.Field:
 				if protected(x.X.Type()) && prot == nil {
 					prot = namedOf(x.X.Type())
